@@ -2,11 +2,13 @@
   Every index / slice expression of bscript/interpreter (regenerated: GoBT/Gen/Indexing.lean) is accounted for:
   per function, how many such expressions there are and why none of them can be out of range — or where the model
   has the corresponding explicit `panic` outcome (which `C07.execute_never_panics` then proves unreachable).
-  When the code gains or loses an index expression the obligation `C07.index_sites_reviewed` stops checking and the
-  function has to be looked at again.  (Found the hard way: the slice in `thread.subScript` had no counterpart in
+  When the code gains an index expression that was not reviewed (IndexReviewed.lean holds the reviewed ones) the obligation
+  `C07.index_sites_reviewed` stops checking and the function has to be looked at again; losing or reordering reviewed
+  expressions needs no new review.  (Found the hard way: the slice in `thread.subScript` had no counterpart in
   the model until a stale separator position made it panic.)
 -/
 import GoBT.Gen.Indexing
+import GoBT.Interp.IndexReviewed
 namespace GoBT.Interp
 
 /-- (function, number of index/slice expressions, why they are in range / where the model panics) -/
@@ -55,13 +57,20 @@ def indexReview : List (String × Nat × String) := [
   ("thread.validPC", 2, "scripts[scriptIdx] after the scriptIdx range test.")
 ]
 
-/-- number of extracted sites in a function -/
-def siteCount (fn : String) : Nat := (GoBT.Gen.Indexing.sites.filter fun s => s.2.1 == fn).length
+/-- how often the expression `e` occurs in function `fn` in a list of (function, expression) pairs -/
+def occurrences (l : List (String × String)) (fn e : String) : Nat := (l.filter fun s => s.1 == fn && s.2 == e).length
 
-/-- every function with an index/slice expression is reviewed with the right count, and every review entry refers to
-    a function that still has that many -/
+/-- every function with an index/slice expression has a review entry, and every expression of the current sources is
+    one of the reviewed expressions of its function, at most as many times as it was reviewed (the number in a review
+    entry is the size of the reviewed set, kept for the reader) -/
 def indexReviewOk : Bool :=
-  (GoBT.Gen.Indexing.sites.all fun s => indexReview.any fun r => r.1 == s.2.1) &&
-  (indexReview.all fun r => siteCount r.1 == r.2.1)
+  let cur := GoBT.Gen.Indexing.sites.map fun s => (s.2.1, s.2.2)
+  (cur.all fun s => indexReview.any fun r => r.1 == s.1) &&
+  (cur.all fun s => occurrences cur s.1 s.2 ≤ occurrences reviewedSites s.1 s.2)
+
+/-- the expressions that are not covered by the review (empty on the unchanged tree; printed as the witness) -/
+def unreviewedSites : List (String × String) :=
+  let cur := GoBT.Gen.Indexing.sites.map fun s => (s.2.1, s.2.2)
+  cur.filter fun s => !(indexReview.any fun r => r.1 == s.1) || occurrences cur s.1 s.2 > occurrences reviewedSites s.1 s.2
 
 end GoBT.Interp
